@@ -1,8 +1,74 @@
 //! C26 — primitive encodings round-trip and reject malformed input.
+//! Real code: utils/core/src/serde/{mod.rs, byte_writer.rs, byte_reader.rs} (SliceReader, Cursor).
+use std::collections::{BTreeMap, BTreeSet};
+
 use utils::{ByteReader, ByteWriter, Deserializable, Serializable, SliceReader};
+
 use crate::model::no_fmt;
 
-//@ harness=c26__usize_roundtrip_all tier=quick kind=prove cap=120 :: write_usize/read_usize round trip with exact consumption, all usize values
+/// Encodes with the real writer, decodes with the real reader, checks equality, exact consumption and
+/// `get_size_hint() == encoded length`.
+macro_rules! roundtrip_int {
+    ($name:ident, $t:ty, $write:ident, $read:ident, $n:expr) => {
+        #[kani::proof]
+        #[kani::unwind(18)]
+        #[kani::stub(alloc::fmt::format, no_fmt)]
+        pub fn $name() {
+            let v: $t = kani::any();
+            let mut out: Vec<u8> = Vec::new();
+            out.$write(v);
+            assert_eq!(out.len(), $n);
+            assert_eq!(v.get_size_hint(), $n);
+            // little-endian layout
+            let le = v.to_le_bytes();
+            let mut i = 0;
+            while i < $n {
+                assert_eq!(out[i], le[i]);
+                i += 1;
+            }
+            let mut r = SliceReader::new(&out);
+            let back = r.$read();
+            assert!(back.is_ok());
+            assert_eq!(back.unwrap(), v);
+            assert!(!r.has_more_bytes());
+            // via the Serializable / Deserializable impls
+            let b2 = v.to_bytes();
+            assert_eq!(b2.len(), $n);
+            let back2 = <$t>::read_from_bytes(&b2);
+            assert!(back2.is_ok() && back2.unwrap() == v);
+            // every strict prefix is rejected with an error
+            let cut: usize = kani::any();
+            kani::assume(cut < $n);
+            assert!(<$t>::read_from_bytes(&out[..cut]).is_err());
+            kani::cover!(v != 0, "VERIF-COVER");
+        }
+    };
+}
+
+//@ harness=c26__u8_roundtrip tier=quick kind=prove cap=120 :: u8: encode/decode round trip, LE layout, size hint, exact consumption, truncation => Err; all values
+roundtrip_int!(c26__u8_roundtrip, u8, write_u8, read_u8, 1);
+//@ harness=c26__u16_roundtrip tier=quick kind=prove cap=120 :: u16: same, all values
+roundtrip_int!(c26__u16_roundtrip, u16, write_u16, read_u16, 2);
+//@ harness=c26__u32_roundtrip tier=quick kind=prove cap=120 :: u32: same, all values
+roundtrip_int!(c26__u32_roundtrip, u32, write_u32, read_u32, 4);
+//@ harness=c26__u64_roundtrip tier=quick kind=prove cap=120 :: u64: same, all values
+roundtrip_int!(c26__u64_roundtrip, u64, write_u64, read_u64, 8);
+//@ harness=c26__u128_roundtrip tier=quick kind=prove cap=180 :: u128: same, all values
+roundtrip_int!(c26__u128_roundtrip, u128, write_u128, read_u128, 16);
+
+/// documented vint64 length: 1 byte per 7 bits of payload, 9 bytes from 2^56 on
+fn vint_len(v: u64) -> usize {
+    let bits = 64 - v.leading_zeros() as usize;
+    if bits > 56 {
+        9
+    } else if bits == 0 {
+        1
+    } else {
+        (bits + 6) / 7
+    }
+}
+
+//@ harness=c26__usize_roundtrip_all tier=quick kind=prove cap=180 :: usize: write_usize/read_usize round trip with exact consumption; encoded length == get_size_hint == documented vint64 length; every strict prefix => Err; ALL usize values (every length boundary)
 #[kani::proof]
 #[kani::unwind(11)]
 #[kani::stub(alloc::fmt::format, no_fmt)]
@@ -10,40 +76,369 @@ pub fn c26__usize_roundtrip_all() {
     let v: usize = kani::any();
     let mut out: Vec<u8> = Vec::new();
     out.write_usize(v);
+    assert_eq!(out.len(), vint_len(v as u64));
+    assert_eq!(v.get_size_hint(), out.len());
     let mut r = SliceReader::new(&out);
     let back = r.read_usize();
     assert!(back.is_ok());
     assert_eq!(back.unwrap(), v);
     assert!(!r.has_more_bytes());
+    let cut: usize = kani::any();
+    kani::assume(cut < out.len());
+    let mut r2 = SliceReader::new(&out[..cut]);
+    assert!(r2.read_usize().is_err());
     kani::cover!(v > (1usize << 56), "VERIF-COVER");
+    kani::cover!(v == (1usize << 49) - 1, "VERIF-COVER boundary");
 }
 
-//@ harness=c26__u64_roundtrip_all tier=quick kind=prove cap=120 :: u64 round trip, all values
+//@ harness=c26__usize_decode_any_bytes tier=quick kind=prove cap=180 :: read_usize on arbitrary <= 10 bytes: Ok or Err, never panics; on Ok the consumed length is the tag-implied length and re-encoding the value never gets longer
 #[kani::proof]
-#[kani::unwind(11)]
+#[kani::unwind(12)]
 #[kani::stub(alloc::fmt::format, no_fmt)]
-pub fn c26__u64_roundtrip_all() {
-    let v: u64 = kani::any();
-    let mut out: Vec<u8> = Vec::new();
-    out.write_u64(v);
-    let mut r = SliceReader::new(&out);
-    let back = r.read_u64();
-    assert!(back.is_ok());
-    assert_eq!(back.unwrap(), v);
-    assert!(!r.has_more_bytes());
-    kani::cover!(v > (1u64 << 56), "VERIF-COVER");
+pub fn c26__usize_decode_any_bytes() {
+    let buf: [u8; 10] = kani::any();
+    let len: usize = kani::any();
+    kani::assume(len <= 10);
+    let mut r = SliceReader::new(&buf[..len]);
+    let res = r.read_usize();
+    if let Ok(v) = res {
+        let implied = buf[0].trailing_zeros() as usize + 1;
+        assert!(implied <= len);
+        assert!(vint_len(v as u64) <= implied);
+        // the rest is still available
+        assert_eq!(r.has_more_bytes(), implied < len);
+    } else {
+        assert!(len == 0 || (buf[0].trailing_zeros() as usize + 1) > len);
+    }
+    kani::cover!(res.is_ok() && len == 9, "VERIF-COVER");
+    kani::cover!(res.is_err() && len > 0, "VERIF-COVER err");
 }
 
-//@ harness=c26__slice_reader_read_slice_any_len tier=quick kind=prove cap=120 :: SliceReader::read_slice(n) after one byte: Err or Ok, never panics, n arbitrary
+//@ harness=c26__bool_option tier=quick kind=prove cap=120 :: bool and Option<u32>: round trip, size hint, invalid tag byte => Err, all values/bytes
+#[kani::proof]
+#[kani::unwind(8)]
+#[kani::stub(alloc::fmt::format, no_fmt)]
+pub fn c26__bool_option() {
+    let b: bool = kani::any();
+    let bytes = {
+        let mut o = Vec::new();
+        o.write_bool(b);
+        o
+    };
+    assert_eq!(bytes.len(), 1);
+    let mut r = SliceReader::new(&bytes);
+    assert_eq!(r.read_bool().unwrap(), b);
+    assert!(!r.has_more_bytes());
+    // invalid boolean
+    let raw: u8 = kani::any();
+    let one = [raw];
+    let mut r = SliceReader::new(&one);
+    let res = r.read_bool();
+    assert_eq!(res.is_ok(), raw <= 1);
+    // option
+    let o: Option<u32> = if kani::any() { Some(kani::any()) } else { None };
+    let enc = o.to_bytes();
+    assert_eq!(enc.len(), o.get_size_hint());
+    assert_eq!(enc.len(), if o.is_some() { 5 } else { 1 });
+    let mut r = SliceReader::new(&enc);
+    let back = Option::<u32>::read_from(&mut r);
+    assert!(back.is_ok() && back.unwrap() == o);
+    assert!(!r.has_more_bytes());
+    // arbitrary bytes as Option<u32>
+    let buf: [u8; 6] = kani::any();
+    let len: usize = kani::any();
+    kani::assume(len <= 6);
+    let res = Option::<u32>::read_from_bytes(&buf[..len]);
+    if len == 0 || buf[0] > 1 || (buf[0] == 1 && len < 5) {
+        assert!(res.is_err());
+    } else {
+        assert!(res.is_ok());
+    }
+    kani::cover!(o.is_some() && raw == 2, "VERIF-COVER");
+}
+
+//@ harness=c26__array_tuple tier=quick kind=prove cap=180 :: [u16;3] and tuples of arity 1..6: round trip, size hint, exact consumption, all values
+#[kani::proof]
+#[kani::unwind(8)]
+#[kani::stub(alloc::fmt::format, no_fmt)]
+pub fn c26__array_tuple() {
+    let a: [u16; 3] = kani::any();
+    let enc = a.to_bytes();
+    assert_eq!(enc.len(), 6);
+    assert_eq!(a.get_size_hint(), 6);
+    let mut r = SliceReader::new(&enc);
+    let back = <[u16; 3]>::read_from(&mut r);
+    assert!(back.is_ok() && back.unwrap() == a);
+    assert!(!r.has_more_bytes());
+
+    let t6: (u8, u16, u32, u8, u8, u16) = (kani::any(), kani::any(), kani::any(), kani::any(), kani::any(), kani::any());
+    let enc = t6.to_bytes();
+    assert_eq!(enc.len(), 11);
+    assert_eq!(t6.get_size_hint(), 11);
+    let mut r = SliceReader::new(&enc);
+    let back = <(u8, u16, u32, u8, u8, u16)>::read_from(&mut r);
+    assert!(back.is_ok() && back.unwrap() == t6);
+    assert!(!r.has_more_bytes());
+    // order of fields: first field first
+    assert_eq!(enc[0], t6.0);
+    assert_eq!(enc[10], (t6.5 >> 8) as u8);
+
+    let t5: (u8, u8, u16, u8, u8) = (kani::any(), kani::any(), kani::any(), kani::any(), kani::any());
+    let enc = t5.to_bytes();
+    let back = <(u8, u8, u16, u8, u8)>::read_from_bytes(&enc);
+    assert!(enc.len() == 6 && t5.get_size_hint() == 6 && back.is_ok() && back.unwrap() == t5);
+    let t4: (u16, u8, u8, u32) = (kani::any(), kani::any(), kani::any(), kani::any());
+    let enc = t4.to_bytes();
+    let back = <(u16, u8, u8, u32)>::read_from_bytes(&enc);
+    assert!(enc.len() == 8 && t4.get_size_hint() == 8 && back.is_ok() && back.unwrap() == t4);
+    let t3: (u8, u32, u8) = (kani::any(), kani::any(), kani::any());
+    let enc = t3.to_bytes();
+    let back = <(u8, u32, u8)>::read_from_bytes(&enc);
+    assert!(enc.len() == 6 && t3.get_size_hint() == 6 && back.is_ok() && back.unwrap() == t3);
+    let t2: (u16, u8) = (kani::any(), kani::any());
+    let enc = t2.to_bytes();
+    let back = <(u16, u8)>::read_from_bytes(&enc);
+    assert!(enc.len() == 3 && t2.get_size_hint() == 3 && back.is_ok() && back.unwrap() == t2);
+    let t1: (u32,) = (kani::any(),);
+    let enc = t1.to_bytes();
+    let back = <(u32,)>::read_from_bytes(&enc);
+    assert!(enc.len() == 4 && t1.get_size_hint() == 4 && back.is_ok() && back.unwrap() == t1);
+    kani::cover!(t6.3 == 7 && a[2] == 0xffff, "VERIF-COVER");
+}
+
+macro_rules! vec_roundtrip {
+    ($name:ident, $n:expr) => {
+        #[kani::proof]
+        #[kani::unwind(9)]
+        #[kani::stub(alloc::fmt::format, no_fmt)]
+        pub fn $name() {
+            let src: [u16; $n] = kani::any();
+            let v: Vec<u16> = src.to_vec();
+            let enc = v.to_bytes();
+            assert_eq!(enc.len(), 1 + 2 * $n);
+            assert_eq!(v.get_size_hint(), enc.len());
+            let mut r = SliceReader::new(&enc);
+            let back = Vec::<u16>::read_from(&mut r);
+            assert!(back.is_ok());
+            let back = back.unwrap();
+            assert_eq!(back.len(), $n);
+            let mut i = 0;
+            while i < $n {
+                assert_eq!(back[i], src[i]);
+                i += 1;
+            }
+            assert!(!r.has_more_bytes());
+            // the slice impl produces the same bytes
+            let enc2 = v.as_slice().to_bytes();
+            assert_eq!(enc2.len(), enc.len());
+            let mut i = 0;
+            while i < enc.len() {
+                assert_eq!(enc[i], enc2[i]);
+                i += 1;
+            }
+            // truncation => Err
+            if $n > 0 {
+                assert!(Vec::<u16>::read_from_bytes(&enc[..enc.len() - 1]).is_err());
+            }
+            kani::cover!(true, "VERIF-COVER");
+        }
+    };
+}
+//@ harness=c26__vec_u16_roundtrip_0 tier=quick kind=prove cap=200 :: Vec<u16> with 0 elements: round trip, size hint, exact consumption, slice impl agrees
+vec_roundtrip!(c26__vec_u16_roundtrip_0, 0);
+//@ harness=c26__vec_u16_roundtrip_1 tier=quick kind=prove cap=200 :: Vec<u16> with 1 symbolic element: same + truncation => Err
+vec_roundtrip!(c26__vec_u16_roundtrip_1, 1);
+//@ harness=c26__vec_u16_roundtrip_3 tier=quick kind=prove cap=300 :: Vec<u16> with 3 symbolic elements: same + truncation => Err
+vec_roundtrip!(c26__vec_u16_roundtrip_3, 3);
+
+//@ harness=c26__vec_decode_any_bytes tier=quick kind=prove cap=300 :: Vec<u16>::read_from_bytes on arbitrary <= 9 bytes (length prefix up to 2^64-1): Ok or Err, never a panic / capacity overflow / oversized allocation
+#[kani::proof]
+#[kani::unwind(7)]
+#[kani::stub(alloc::fmt::format, no_fmt)]
+pub fn c26__vec_decode_any_bytes() {
+    let buf: [u8; 9] = kani::any();
+    let len: usize = kani::any();
+    kani::assume(len <= 9);
+    let res = Vec::<u16>::read_from_bytes(&buf[..len]);
+    if let Ok(v) = &res {
+        assert!(2 * v.len() < len);
+    }
+    kani::cover!(res.is_err() && len == 9 && buf[0] == 0, "VERIF-COVER huge length prefix");
+    kani::cover!(res.is_ok() && len == 5, "VERIF-COVER ok");
+}
+
+macro_rules! string_roundtrip {
+    ($name:ident, $n:expr) => {
+        #[kani::proof]
+        #[kani::unwind(8)]
+        #[kani::stub(alloc::fmt::format, no_fmt)]
+        pub fn $name() {
+            let raw: [u8; $n] = kani::any();
+            let mut i = 0;
+            while i < $n {
+                kani::assume(raw[i] < 0x80);
+                i += 1;
+            }
+            let s = String::from_utf8(raw.to_vec()).unwrap();
+            let enc = s.to_bytes();
+            assert_eq!(enc.len(), 1 + $n);
+            assert_eq!(s.get_size_hint(), enc.len());
+            assert_eq!(s.as_str().get_size_hint(), enc.len());
+            let mut r = SliceReader::new(&enc);
+            let back = String::read_from(&mut r);
+            assert!(back.is_ok());
+            let back = back.unwrap();
+            assert_eq!(back.len(), $n);
+            let bb = back.as_bytes();
+            let mut i = 0;
+            while i < $n {
+                assert_eq!(bb[i], raw[i]);
+                i += 1;
+            }
+            assert!(!r.has_more_bytes());
+            kani::cover!(true, "VERIF-COVER");
+        }
+    };
+}
+//@ harness=c26__string_roundtrip_0 tier=quick kind=prove cap=200 :: empty String: round trip + size hint
+string_roundtrip!(c26__string_roundtrip_0, 0);
+
+//@ harness=c26__string_invalid_utf8 tier=quick kind=prove cap=300 :: String::read_from_bytes on [len=2, b0, b1] with arbitrary b0,b1: Err exactly for the invalid UTF-8 pairs, never panics; on Ok re-encoding returns the same 3 bytes and size hint is 3 (strings >= 3 bytes exhaust CBMC memory inside core::str::from_utf8: outside the bound)
+#[kani::proof]
+#[kani::unwind(8)]
+#[kani::stub(alloc::fmt::format, no_fmt)]
+pub fn c26__string_invalid_utf8() {
+    let b0: u8 = kani::any();
+    let b1: u8 = kani::any();
+    let enc = [0b101u8, b0, b1]; // vint64(2) = (2 << 1 | 1) = 5
+    let res = String::read_from_bytes(&enc);
+    let valid = (b0 < 0x80 && b1 < 0x80) || ((0xC2..=0xDF).contains(&b0) && (0x80..=0xBF).contains(&b1));
+    assert_eq!(res.is_ok(), valid);
+    if let Ok(s) = &res {
+        // decode -> encode gives the same bytes back (round trip in the decode direction), size hint exact
+        let enc2 = s.to_bytes();
+        assert!(enc2.len() == 3 && enc2[0] == enc[0] && enc2[1] == b0 && enc2[2] == b1);
+        assert_eq!(s.get_size_hint(), 3);
+        assert_eq!(s.as_str().get_size_hint(), 3);
+    }
+    kani::cover!(!valid, "VERIF-COVER invalid");
+    kani::cover!(valid && b0 >= 0xC2, "VERIF-COVER two-byte char");
+}
+
+//@ harness=c26__btreeset_roundtrip tier=thorough kind=prove cap=1800 edge :: BTreeSet<u8> with 2 symbolic elements: round trip (B-tree bound code, edge)
 #[kani::proof]
 #[kani::unwind(6)]
 #[kani::stub(alloc::fmt::format, no_fmt)]
-pub fn c26__slice_reader_read_slice_any_len() {
+pub fn c26__btreeset_roundtrip() {
+    let a: u8 = kani::any();
+    let b: u8 = kani::any();
+    let mut s = BTreeSet::new();
+    s.insert(a);
+    s.insert(b);
+    let enc = s.to_bytes();
+    assert_eq!(enc.len(), s.get_size_hint());
+    let back = BTreeSet::<u8>::read_from_bytes(&enc);
+    assert!(back.is_ok());
+    let back = back.unwrap();
+    assert!(back.contains(&a) && back.contains(&b) && back.len() == s.len());
+    kani::cover!(a != b, "VERIF-COVER");
+}
+
+//@ harness=c26__btreemap_roundtrip tier=thorough kind=prove cap=1800 edge :: BTreeMap<u8,u8> with 2 symbolic entries: round trip (B-tree bound code, edge)
+#[kani::proof]
+#[kani::unwind(6)]
+#[kani::stub(alloc::fmt::format, no_fmt)]
+pub fn c26__btreemap_roundtrip() {
+    let a: u8 = kani::any();
+    let b: u8 = kani::any();
+    let va: u8 = kani::any();
+    let vb: u8 = kani::any();
+    kani::assume(a != b);
+    let mut s = BTreeMap::new();
+    s.insert(a, va);
+    s.insert(b, vb);
+    let enc = s.to_bytes();
+    assert_eq!(enc.len(), 5);
+    assert_eq!(enc.len(), s.get_size_hint());
+    let back = BTreeMap::<u8, u8>::read_from_bytes(&enc);
+    assert!(back.is_ok());
+    let back = back.unwrap();
+    assert!(back.get(&a) == Some(&va) && back.get(&b) == Some(&vb) && back.len() == 2);
+    kani::cover!(a > b, "VERIF-COVER");
+}
+
+//@ harness=c26__slice_reader_any_len tier=quick kind=prove cap=120 :: SliceReader::{read_slice, read_vec, check_eor}(n) after consuming k bytes of a 4-byte source, n arbitrary usize: Ok <=> n <= remaining, never panics
+#[kani::proof]
+#[kani::unwind(6)]
+#[kani::stub(alloc::fmt::format, no_fmt)]
+pub fn c26__slice_reader_any_len() {
     let buf: [u8; 4] = kani::any();
+    let k: usize = kani::any();
+    kani::assume(k <= 4);
     let n: usize = kani::any();
     let mut r = SliceReader::new(&buf);
-    let _ = r.read_u8();
+    let _ = r.read_slice(k);
+    assert_eq!(r.check_eor(n).is_ok(), n <= 4 - k);
     let res = r.read_slice(n);
-    if n <= 3 { assert!(res.is_ok()); } else { assert!(res.is_err()); }
-    kani::cover!(n > 3, "VERIF-COVER");
+    assert_eq!(res.is_ok(), n <= 4 - k);
+    if let Ok(s) = res {
+        assert_eq!(s.len(), n);
+        if n > 0 {
+            assert_eq!(s[0], buf[k]);
+        }
+    }
+    kani::cover!(n > 4, "VERIF-COVER");
+    kani::cover!(n == usize::MAX && k == 1, "VERIF-COVER wrap");
+}
+
+//@ harness=c26__slice_reader_read_array tier=quick kind=prove cap=120 :: SliceReader::read_array::<N> (N=0,3,16) at every position of a 4-byte source: Ok <=> fits, value = source bytes, never panics
+#[kani::proof]
+#[kani::unwind(18)]
+#[kani::stub(alloc::fmt::format, no_fmt)]
+pub fn c26__slice_reader_read_array() {
+    let buf: [u8; 4] = kani::any();
+    let k: usize = kani::any();
+    kani::assume(k <= 4);
+    let mut r = SliceReader::new(&buf);
+    let _ = r.read_slice(k);
+    let z = r.read_array::<0>();
+    assert!(z.is_ok());
+    let big = r.read_array::<16>();
+    assert!(big.is_err());
+    let a = r.read_array::<3>();
+    assert_eq!(a.is_ok(), k <= 1);
+    if let Ok(a) = a {
+        assert!(a[0] == buf[k] && a[2] == buf[k + 2]);
+        assert_eq!(r.has_more_bytes(), k == 0);
+    }
+    kani::cover!(k == 1, "VERIF-COVER");
+}
+
+//@ harness=c26__cursor_vs_slice tier=quick kind=prove cap=300 :: std::io::Cursor reader == SliceReader on a fixed operation sequence (peek, u8, usize, slice(n), u16, has_more, check_eor(m)) over <= 6 symbolic bytes, n and m arbitrary
+#[kani::proof]
+#[kani::unwind(12)]
+#[kani::stub(alloc::fmt::format, no_fmt)]
+pub fn c26__cursor_vs_slice() {
+    let buf: [u8; 6] = kani::any();
+    let len: usize = kani::any();
+    kani::assume(len <= 6);
+    let n: usize = kani::any();
+    let m: usize = kani::any();
+    let mut a = SliceReader::new(&buf[..len]);
+    let mut c = std::io::Cursor::new(&buf[..len]);
+    assert_eq!(a.peek_u8().ok(), c.peek_u8().ok());
+    assert_eq!(a.read_u8().ok(), c.read_u8().ok());
+    assert_eq!(a.read_usize().ok(), c.read_usize().ok());
+    assert_eq!(a.check_eor(m).is_ok(), c.check_eor(m).is_ok());
+    let (x, y) = (a.read_slice(n), c.read_slice(n));
+    assert_eq!(x.is_ok(), y.is_ok());
+    if let (Ok(x), Ok(y)) = (x, y) {
+        assert_eq!(x.len(), y.len());
+        if !x.is_empty() {
+            assert_eq!(x[0], y[0]);
+        }
+    }
+    assert_eq!(a.read_u16().ok(), c.read_u16().ok());
+    assert_eq!(a.has_more_bytes(), c.has_more_bytes());
+    kani::cover!(len == 6 && n == 1, "VERIF-COVER");
 }
